@@ -352,6 +352,49 @@ def run(ctx):
                     'A': 'handler reconnects, final handler disconnects', 'B': 'handler reconnects and raises, later handler disconnects',
                     'C': 'handler reconnects', 'D': 'listener disconnects gracefully, flush fails'}[kind], bad),
                     {'kind': kind, 'variant': variant, 'log': log[:8]}, key={'kind': 'side-effects', 'scenario': kind, 'variant': variant})
+    # ---- a fault in the SAME pass of the networking loop in which a write had failed (the server rejects the login and closes
+    # before reading: the client's login-start write fails, the disconnect packet is already readable): the exception that
+    # is dispatched is the fault of the reaction / listener / decoder, not the stale write error
+    from minecraft.exceptions import LoginDisconnect as _LD
+    for trial in range(ctx.scale(9, 60)):
+        kind = trial % 3
+        seen = []
+        boom = ErrA('boom-after-failed-write-%d' % trial)
+        cfg = {'version': 757, 'early_disconnect': '{"text":"not today"}'}
+        with simnet.Net(lambda s: RefServer(s, cfg)) as net:
+            net.reset_by_peer = trial % 2 == 1
+            conn = C.Connection('h', 1, username='u', allowed_versions={757}, handle_exception=lambda e, i: seen.append(('F', e)))
+            conn.register_exception_handler(lambda e, i: seen.append(('os', e)), OSError)
+            if kind == 1:
+                def thrower2(pkt):
+                    raise boom
+                conn.register_packet_listener(thrower2, P.Packet, early=True)
+            elif kind == 2:
+                def thrower3(pkt):
+                    raise boom
+                conn.register_packet_listener(thrower3, P.Packet)
+            try:
+                conn.connect()
+                net.run_threads()
+            except Exception as e:
+                seen.append(('raised', e))
+            wrote_fail = any(ev[0] == 'epipe' for ev in net.log)
+        ctx.case(('fault-after-failed-write', trial))
+        ctx.count('fault-after-failed-write' + ('.write-failed' if wrote_fail else ''))
+        want_type = _LD if kind in (0, 2) else ErrA     # (an ordinary listener runs after the reaction, which raises first)
+        final = [e for k_, e in seen if k_ == 'F']
+        bad = None
+        if any(k_ == 'os' for k_, _ in seen):
+            bad = 'a handler registered for OSError received %r' % ([e for k_, e in seen if k_ == 'os'][0],)
+        elif len(final) != 1 or type(final[0]) is not want_type or (kind == 1 and final[0] is not boom):
+            bad = 'the final handler received %r, the fault in this pass was a %s' % (final, want_type.__name__)
+        elif conn.exception is not final[0]:
+            bad = 'recorded exception %r is not the dispatched one %r' % (conn.exception, final[0])
+        if bad:
+            ctx.violation('the login-start write fails (%s) and the server\'s login disconnect is read in the same pass (%s): %s'
+                          % ('ECONNRESET' if trial % 2 else 'EPIPE',
+                             ['the reaction raises LoginDisconnect', 'an early listener raises', 'an ordinary listener is registered'][kind], bad),
+                          {'kind': kind, 'write_failed': wrote_fail}, key={'kind': 'fault-after-failed-write', 'variant': kind})
     # ---- "afterwards the same connection object can connect again", for every interleaving of another thread's connect()
     # with the last steps of the faulting networking thread (scheduler world of corr/c16.py: every access to the two
     # thread slots and every lock operation is a preemption point).  The server drops the socket during login (EOFError
